@@ -11,7 +11,7 @@ set_option linter.unusedSimpArgs false
 variable {K V : Type} [DecidableEq K]
 
 theorem get_snd_eq_lookup (s : Cache K V) (k : K) : (get s k).2 = lookup s k := by
-  unfold get lookup; split <;> simp_all
+  unfold get lookup; split <;> (rename_i h; simp [h])
 
 theorem lookup_isSome_iff (s : Cache K V) (k : K) : (lookup s k).isSome = contains s k := by
   unfold lookup contains
